@@ -675,10 +675,10 @@ impl<'d> Deserialize<'d> for VerifyingKey {
                         .ok_or_else(|| serde::de::Error::invalid_length(i, &"expected 32 bytes"))?;
                 }
 
-                let remaining = (0..)
-                    .map(|_| seq.next_element::<u8>())
-                    .take_while(|el| matches!(el, Ok(Some(_))))
-                    .count();
+                let mut remaining = 0;
+                while seq.next_element::<u8>()?.is_some() {
+                    remaining += 1;
+                }
 
                 if remaining > 0 {
                     return Err(serde::de::Error::invalid_length(
